@@ -15,15 +15,27 @@ Streams
                 roundtrip extract_variable then inline of the new variable: equivalent to the original
                 parens    every table row: the inlined program has the AST of the correctly
                           parenthesised one; a differing row is executed to show the changed value
+  flow          (reported under oracle-compile / oracle-equiv, buckets `extract_function/flow...`) statement
+                ranges = runs of 1..4 whole sibling statements of every suite of function bodies with control
+                flow (gen.refactor_gen.FlowG: if / elif / else, for with break / continue / else over possibly
+                empty tuples, try / except / else / finally, nested blocks, rebinding on some paths, augmented
+                and tuple assignment, loop-carried names): extract_function, compile, then the entry function
+                of the old and the new program is called on argument tuples drawn until every line of the
+                selection was executed (gen.refactor_flow); same return value required wherever the
+                original returns.  Run in fresh-interpreter workers next to the in-process streams.
+  inputs        real `extract._find_inputs_and_outputs` calls: the names of the selection with the verdict of
+                the real lookup for EVERY read (computed by the harness with the real `context.goto` /
+                `_is_name_input`), the Lean model `findInputsOutputs` must return the same two lists
 """
 import ast
 import json
+import os
 import re
 import warnings
 
 import common
 from common import short
-from gen import refactor_gen, refactor_shapes
+from gen import refactor_gen, refactor_shapes, refactor_flow
 from props.c07 import dump_tree, load_own_known, split_keepends, sandbox_quirk
 
 MODELS = ['Refactor', 'Tree']
@@ -86,7 +98,14 @@ def fail(ctx, stream, what, case, observed, expected=None, src=None, request=Non
     `src` / `request` = the program and request the shape is read from (default: the case itself)"""
     src = case['source'] if src is None else src
     request = case if request is None else request
-    shape = refactor_shapes.shape_of(src, request, stream, observed)
+    shape = None
+    if case.get('entry') is not None:
+        try:
+            shape = refactor_flow.flow_shape(src, request, stream, observed)
+        except Exception:               # a rule that cannot read the input does not explain it
+            shape = None
+    if shape is None:
+        shape = refactor_shapes.shape_of(src, request, stream, observed)
     ctx.fail(stream, what, dict(case, shape=shape), expected=expected, observed=observed, how=HOW)
 
 
@@ -592,6 +611,127 @@ def stream_programs(ctx, reqs, pending):
                              request=rreq)
 
 
+# ------------------------------------------------------------------ statement ranges with control flow
+
+FLOW_HOW = ("s = jedi.Script(source); new = s.extract_function(line, column, new_name='extracted_1', until_line=.., "
+            "until_column=..).get_changed_files()[None].get_new_code(); exec old and new; "
+            "eval(entry)(*args) in both and compare (or: ./check C06 --replay <this file>)")
+CORPUS_DIR = os.path.join(common.VERIF, 'corpus', 'C06')
+
+
+def flow_case(src, entry, sel, args, tags):
+    return {'source': src, 'kind': 'extract_function', 'line': sel['start'][0], 'column': sel['start'][1],
+            'until_line': sel['until'][0], 'until_column': sel['until'][1], 'entry': entry, 'args': args,
+            'tags': tags}
+
+
+def flow_bucket(sel):
+    comp = sorted({k for k in sel.get('kinds', []) if k in ('if', 'for', 'try', 'while', 'with')})
+    return 'extract_function/flow:%s:%s' % ('nested' if sel.get('depth') else 'body', '+'.join(comp) or 'simple')
+
+
+def flow_judge(ctx, r):
+    """one record of gen.refactor_flow (worker or corpus) -> counts and failures"""
+    if r.get('rec') != 'case':
+        ctx.count('generator-rejects', None, nontrivial=False, bucket=str(r.get('detail'))[:60])
+        return
+    sel = r['sel']
+    key = (r.get('key') or r.get('source'), tuple(sel['start']), tuple(sel['until']))
+    bucket = flow_bucket(sel)
+    if r['status'] == 'refused':
+        ctx.count('oracle-compile', key, nontrivial=False, bucket='extract_function/flow/refused')
+        return
+    if r['status'] == 'raised':
+        # totality / exception classes are C07's statement: counted, not judged here
+        ctx.count('raised', None, nontrivial=False, bucket=r['detail'])
+        return
+    ctx.count('oracle-compile', key, nontrivial=True, bucket=bucket,
+              sample={'request': {'start': sel['start'], 'until': sel['until'], 'kinds': sel.get('kinds')}})
+    if r['status'] == 'no-compile':
+        case = flow_case(r['source'], r['entry'], sel, [], ['flow'] + list(sel.get('kinds', [])))
+        fail(ctx, 'oracle-compile', 'extract_function returned a program that does not compile', case,
+             observed={'error': r['error'], 'new_code': r['new_code']})
+        return
+    covered = r['covered'] == r['need']
+    ctx.count('oracle-equiv', key, nontrivial=covered and r['nargs'] > r['old_raises'],
+              bucket=bucket + ('' if covered else '/not-every-line-run') + ('/differs' if r['status'] == 'differs' else ''))
+    if r['status'] == 'differs':
+        for f in r['failures']:
+            case = flow_case(r['source'], r['entry'], sel, [f['args']] if f['args'] else [],
+                             ['flow'] + list(sel.get('kinds', [])))
+            fail(ctx, 'oracle-equiv', 'extract_function changed the behaviour of the function', case,
+                 expected={'outcome': f['old_outcome']},
+                 observed={'args': f['args'], 'old_outcome': f['old_outcome'], 'new_outcome': f['new_outcome'],
+                           'new_code': r['new_code']})
+
+
+def flow_one(src, entry, sel, args):
+    """the property on one given (program, selection, argument tuples), in-process"""
+    sel = dict(sel)
+    full = [x for x in refactor_flow.selections(src)
+            if x['start'] == list(sel['start']) and x['until'] == list(sel['until'])]
+    if full:
+        sel = full[0]
+    else:
+        sel.setdefault('kinds', [])
+        sel.setdefault('depth', 0)
+    old = refactor_flow.Runner(src)
+    if old.error is not None:
+        return {'rec': 'generator-rejects', 'detail': old.error}
+    need = refactor_flow.selection_lines(src, {'start': sel['start'], 'until': sel['until']})
+    fname = entry.split('.')[-1].rstrip('()')
+    runs = [old.call(entry, a, trace_func=fname) for a in args]
+    covered = set()
+    for _o, lines in runs:
+        covered |= lines & need
+    e = {'entry': entry, 'name': fname}
+    res = refactor_flow.check_selection(src, e, sel, args, runs)
+    res.update({'rec': 'case', 'entry': entry, 'sel': sel, 'covered': len(covered), 'need': len(need),
+                'old_raises': sum(1 for (o, _l) in runs if o[0] != 'ok'), 'nargs': len(args), 'source': src,
+                'args_all': args})
+    return res
+
+
+def flow_corpus(ctx):
+    """corpus/C06/*.json: minimised past failures (one per root cause + the seeded classes), run first"""
+    import glob
+    for path in sorted(glob.glob(os.path.join(CORPUS_DIR, '*.json'))):
+        with open(path, encoding='utf-8') as f:
+            c = json.load(f)
+        if c.get('stream') != 'flow':
+            continue
+        flow_judge(ctx, flow_one(c['source'], c['entry'], {'start': c['start'], 'until': c['until']}, c['args']))
+
+
+class FlowJob:
+    """the generated part of the flow stream: fresh-interpreter workers (common.parallel_map), started
+    before and collected after the in-process streams"""
+
+    def __init__(self, ctx):
+        import threading
+        n = ctx.size(280, 6000)
+        self.items = [{'seed': 'C06-%s-flow-%d' % (ctx.seed, i), 'programs': 1,
+                       'per_program': ctx.size(8, 12), 'nargs': ctx.size(10, 16)} for i in range(n)]
+        self.result = None
+        self.error = None
+        self.thread = threading.Thread(target=self._run, daemon=True)
+        self.thread.start()
+
+    def _run(self):
+        try:
+            self.result = common.parallel_map('gen.refactor_flow', 'flow_worker', self.items, jobs=14)
+        except BaseException as e:     # noqa: re-raised in the main thread
+            self.error = e
+
+    def finish(self, ctx):
+        self.thread.join()
+        if self.error is not None:
+            raise self.error
+        for recs in self.result:
+            for r in recs:
+                flow_judge(ctx, r)
+
+
 def fixed_probes(ctx):
     """DESIGN section 6 F7 / F8 and the defects found while building this check, kept alive"""
     import jedi
@@ -683,8 +823,11 @@ def compare(ctx, reqs, pending, answers):
 def run(ctx):
     load_own_known(ctx, 'C06')
     reqs, pending = [], []
+    job = FlowJob(ctx)
     fixed_probes(ctx)
+    flow_corpus(ctx)
     stream_programs(ctx, reqs, pending)
+    job.finish(ctx)
     if ctx.model_ok:
         # one driver run: the table first, then the captured inline / _replace calls
         answers = common.run_driver_parallel('C06', [{'op': 'table'}] + reqs)
@@ -698,7 +841,8 @@ def run(ctx):
         'decorators) are not covered',
         'get_references decides which names `inline` receives; the model starts from those names (captured)',
         '_find_nodes / extract_function input-output analysis are not modelled: compile + execution oracle only',
-        'behaviour = final module globals of deterministic, builtin-free, exception-free generated programs',
+        'behaviour = final module globals of deterministic, builtin-free, exception-free generated programs; for '
+        'the flow stream: the return value of the entry function on every drawn argument tuple',
     ]
 
 
@@ -708,6 +852,21 @@ def replay(ctx, payload):
     inp = payload['input']
     src = inp['source']
     print(src)
+    if inp.get('entry') is not None:
+        sel = {'start': [inp['line'], inp['column']], 'until': [inp['until_line'], inp['until_column']]}
+        args = inp.get('args') or refactor_gen.flow_arguments(ctx.rng, {'params': ['p'], 'tuples': []}, 4)
+        r = flow_one(src, inp['entry'], sel, args)
+        print('--- request: extract_function(%d, %d, new_name=\'extracted_1\', until_line=%d, until_column=%d); '
+              'entry %s, arguments %s' % (inp['line'], inp['column'], inp['until_line'], inp['until_column'],
+                                          inp['entry'], args))
+        print('--- status:', r.get('status'), r.get('error', ''))
+        if r.get('new_code'):
+            print('--- new code\n' + r['new_code'])
+        for f in r.get('failures', []):
+            print('arguments %s: old %s  new %s' % (f['args'], f['old_outcome'], f['new_outcome']))
+        print('reproduced:', 'yes' if r.get('status') in ('differs', 'no-compile') else 'no')
+        print('observed at record time:', short(payload.get('observed'), 800))
+        return 0
     s = jedi.Script(src)
     kind = inp['kind'].split('+')[0]
     if kind == 'inline':
